@@ -40,7 +40,7 @@ def profile(tier, rng):
                      max_depth=8 if tier == "quick" else rng.choice([8, 14]), min_depth=1, self_join_p=0.3, pair_keys_p=0.4,
                      ops={"extend": 4, "wextend": 2, "owextend": 1, "project": 2, "select_rows": 2, "select_columns": 4,
                           "drop_columns": 3, "rename_columns": 1, "map_columns": 2, "order_rows": 1, "natural_join": 4,
-                          "concat_rows": 2})
+                          "concat_rows": 2, "convert_records": 1})
 
 
 def diamond(g, st, rng):
